@@ -5,6 +5,7 @@
 import PgmVerif.Props.C11
 import PgmVerif.Model.PDAG
 import PgmVerif.Props.C08
+import PgmVerif.Proofs.ToDag
 namespace PgmVerif
 open Relation
 
@@ -172,6 +173,18 @@ theorem C12_nonadjacent_separable (g : DG) (hg : g.WFG) (hac : Acyclic g.edges) 
     exact hac u (TransGen.trans h h')
   · left
     exact C12_parents_separate g hg hac u v hu (Ne.symm hne) h
+
+/-- **converting a partially directed graph to a DAG never creates a directed cycle**: the model of `PDAG.to_dag`
+    (repeatedly remove a node without outgoing directed edge whose undirected neighbourhood is complete, orienting its
+    undirected edges into it) returns, whenever it succeeds, an acyclic edge set — for EVERY partially directed graph -/
+theorem C12_toDag_acyclic (p : PD) (res : List (Var × Var))
+    (hdir : ∀ e ∈ p.directed, e.1 ∈ p.nodes ∧ e.2 ∈ p.nodes)
+    (hund : ∀ e ∈ p.undirected.map normPair, e.1 ∈ p.nodes ∧ e.2 ∈ p.nodes ∧ e.1 ≠ e.2)
+    (h : p.toDag = some res) : Acyclic res :=
+  PD.toDag_acyclic p res hdir hund h
+
+/-- non-vacuity: the chain PDAG 0 - 1 - 2 is converted -/
+example : (PD.mk [0, 1, 2] [] [(0, 1), (1, 2)]).toDag = some [(1, 0), (2, 1)] := by decide
 
 example : (DG.mk [0, 1, 2] [(0, 2), (1, 2)]).WFG := by
   intro e he
